@@ -74,9 +74,9 @@ def run(ctx):
         if died:
             ctx.violation({"kind": "replay", "spec": "FrontEnd", "outcome": "aborted", "text": "".join(chr(c) for c in died["text_code_points"]), **died})
         batches.append(out)
-    for i in range(4 if quick else 40):
+    for i in range(8 if quick else 40):
         out = os.path.join(ctx.work, "f_rand_%d.ndjson" % i)
-        died = _fe_run(vh, ["--seed", str(ctx.seed * 100 + i), "--texts", "250" if quick else "1000"], out)
+        died = _fe_run(vh, ["--seed", str(ctx.seed * 100 + i), "--texts", "750" if quick else "1000"], out)
         if died:
             ctx.violation({"kind": "trace", "spec": "FrontEnd", "outcome": "aborted", "text": "".join(chr(c) for c in died["text_code_points"]), **died})
         batches.append(out)
